@@ -15,8 +15,8 @@ RULE = ("function leg: every bin table of BT(3,B,{1,2,3}) x 2 name flavours x ev
         "through extent/offset/bins().fetch/pixels().fetch/matrix().fetch in 4 spellings, and every region PAIR through "
         "matrix().fetch(r1, r2) vs the index-slice query and the dense reference. Oracle: linear-scan cover. "
         "Non-trivial: start<end and the range is not the whole chromosome. Distinct by construction.")
-BOUNDS = {"quick": "function: BT(3,4,W) = 696 tables x 2 flavours; api: BTrep(3,4) tables, pairs when genome <= 7 bp",
-          "thorough": "function: BT(3,5,W) = 3369 tables x 2 flavours; api: BTrep(3,5) tables, pairs when genome <= 9 bp"}
+BOUNDS = {"quick": "function: BT(3,4,W) = 696 tables x 2 flavours; api: BTrep(3,4) tables, pairs when genome <= 7 bp + binsizes: every fixed bin size 1..512 x ranges starting/ending on and next to every edge of 41 bins (function level, integer-arithmetic reference)",
+          "thorough": "function: BT(3,5,W) = 3369 tables x 2 flavours; api: BTrep(3,5) tables, pairs when genome <= 9 bp + binsizes: every fixed bin size 1..4096 x ranges starting/ending on and next to every edge of 41 bins (function level, integer-arithmetic reference)"}
 ASSUMPTIONS = ["an empty range (start == end) may select no bin or the one bin whose closed interval contains the position",
                "bin tables are valid (contiguous from 0 per chromosome); widths 1..3 bp so every coordinate is enumerated"]
 EXPECT_CLASSES = {"*": ["tclass:uni>", "tclass:uni<", "tclass:var", "tclass:one", "range:empty", "range:whole", "range:inner"]}
@@ -32,6 +32,11 @@ def units(tier):
     for k in range(len(rep)):
         yield {"leg": "api", "B": B, "k": k}
     yield {"leg": "large"}
+    # every fixed bin size 1..512 (thorough 4096) on a chromosome of 41 bins behind a 3-bin one: ranges that start / end on, one
+    # before and one after every bin edge - the floor / ceil arithmetic must be exact at every multiple of every bin size
+    top = 4096 if th else 512
+    for lo in range(1, top + 1, 32):
+        yield {"leg": "binsizes", "lo": lo, "hi": min(top + 1, lo + 32)}
 
 
 def _regions(bins):
@@ -292,7 +297,60 @@ def _large(R, only):
             scratch.rm(p)
 
 
+def _binsizes(R, unit, only):
+    from cooler import util
+    from cooler.core import region_to_extent, region_to_offset
+    R.add("states")
+    R.add("traces")
+    for b in range(unit["lo"], unit["hi"]):
+        inner = {"binsize": b}
+        if only is not None and only != inner:
+            continue
+        sizes = [("chr2", 3 * b), ("chr10", 41 * b - b // 2)]
+        bins = models.ref_binnify(sizes, b)
+        names = [c for c, _ in sizes]
+        df = build.bins_df(bins)
+        bs = util.get_binsize(df)
+        if bs is None or int(bs) != b:
+            R.mismatch("get_binsize(binnified-table)", inner, f"{bs}")
+            continue
+        coff = np.array(models.ref_indptr([names.index(x[0]) for x in bins], len(names)), dtype=np.int64)
+        grp = {"indexes": {"chrom_offset": coff}, "bins": {"start": np.array([x[1] for x in bins], dtype=np.int64)}}
+        ids = {nm: k for k, nm in enumerate(names)}
+        L = sizes[1][1]
+        pts = sorted({p for m in range(0, 42) for p in (m * b - 1, m * b, m * b + 1) if 0 <= p <= L} | {L})
+        R.cls("binsizes")
+        bad = None
+        nreg = 0
+        for s in pts:
+            for e in (s, s + 1, min(L, (s // b + 1) * b), min(L, (s // b + 1) * b + 1), min(L, s + 7 * b), L):
+                if e < s:
+                    continue
+                nreg += 1
+                # integer reference: first bin = s // b, one past the last = ceil(e / b); offset 3 bins of the first chromosome
+                want = (3 + s // b, 3 + -(-e // b)) if s < e else None
+                try:
+                    lo, hi = [int(x) for x in region_to_extent(grp, ids, ("chr10", s, e), b)]
+                    off = int(region_to_offset(grp, ids, ("chr10", s, e), b))
+                except Exception as ex:
+                    bad = bad or f"({s},{e}) raises {type(ex).__name__}: {ex!s:.100}"
+                    continue
+                if want is not None and ((lo, hi) != want or off != lo):
+                    bad = bad or f"range ({s},{e}): extent=({lo},{hi}) offset={off} want={want}"
+                elif want is None:
+                    msg = _judge(bins, "chr10", s, e, lo, hi)
+                    if msg:
+                        bad = bad or f"range ({s},{e}): {msg}"
+        R.ev(nreg, nreg)
+        R.add("transitions", 2 * nreg)
+        if bad:
+            R.mismatch("extent!=cover:binsize", inner, bad)
+
+
 def run(unit, R, tier, only=None):
+    if unit["leg"] == "binsizes":
+        _binsizes(R, unit, only)
+        return
     if unit["leg"] == "large":
         _large(R, only)
         return
